@@ -1359,6 +1359,12 @@ _ret_:
         vmovdqa [keys + i*16], xmm0
 %assign i (i + 1)
 %endrep
+        ; Clear tweak values (16*8 bytes), the first is the encrypted initial tweak
+%assign i 0
+%rep 8
+        vmovdqa [TW + i*16], xmm0
+%assign i (i + 1)
+%endrep
 %endif
 
 	mov     rbx, [_gpr + 8*0]
